@@ -5,12 +5,14 @@ import IdpyVerif.Driver.Msg
 import IdpyVerif.Driver.Redirect
 import IdpyVerif.Driver.Pkce
 import IdpyVerif.Driver.ClientAuthn
+import IdpyVerif.Driver.Jar
 open Idpy
 
 structure DState where
   sdb : SessionDB.DB := []
   prov : Driver.Prov.DS := {}
   ca : Driver.ClientAuthn.DS := {}
+  jar : Driver.Jar.DS := {}
 
 def dispatch (st : DState) (fields : List String) : DState × String :=
   match fields with
@@ -19,6 +21,9 @@ def dispatch (st : DState) (fields : List String) : DState × String :=
   | "redir" :: args => (st, (Driver.Redirect.handle args).getD "bad-op")
   | "msg" :: args => (st, (Driver.Msg.handle args).getD "bad-op")
   | "cookie" :: args => (st, (Driver.C17.handle args).getD "bad-op")
+  | "jar" :: args =>
+    let (j', out) := Driver.Jar.stepLine st.jar args
+    ({ st with jar := j' }, out)
   | "ca" :: args =>
     let (c', out) := Driver.ClientAuthn.stepLine st.ca args
     ({ st with ca := c' }, out)
